@@ -121,6 +121,17 @@ def value_findings(eff, out, scale, seed):
     return res, pts
 
 
+
+def units_equivalent(W, U, a, b):
+    """same dimensions and same SI scale, with a tolerance on the (floating-point) exponents: UnitStore.is_equivalent compares
+    the exponents exactly, and pint accumulates them in floating point (x**2.01 cubed: 6.03 vs 6.029999999999999)"""
+    if U.is_equivalent(a, b):
+        return True
+    (sa, da), (sb, db) = W.unit_obs(a), W.unit_obs(b)
+    keys = set(da) | set(db)
+    return uc.close(sa, sb, 1e-9) and all(abs(da.get(k, 0) - db.get(k, 0)) < 1e-9 for k in keys)
+
+
 def work(case):
     W = uc.world()
     U = W.store
@@ -169,7 +180,7 @@ def work(case):
         for p in parts:
             try:
                 u2 = U.evaluate_units(p)
-                if not new_expr.is_Relational and not U.is_equivalent(u2, units):
+                if not new_expr.is_Relational and not units_equivalent(W, U, u2, units):
                     findings.append(('strict', 'evaluate_units(result) = %s, not equivalent to the returned %s' % (
                         U.format(u2), U.format(units))))
             except Exception as e:
@@ -181,7 +192,7 @@ def work(case):
                 break
         if new_expr.is_Relational and len(findings) == 0:
             try:
-                if not U.is_equivalent(U.evaluate_units(parts[0]), U.evaluate_units(parts[1])):
+                if not units_equivalent(W, U, U.evaluate_units(parts[0]), U.evaluate_units(parts[1])):
                     findings.append(('strict', 'sides of the converted relation are not in equivalent units'))
             except Exception:
                 pass
